@@ -601,11 +601,9 @@ namespace link_layer {
         {
             acknowledge( header & nesn_flag );
 
-            // resent PDU?
-            if ( static_cast< bool >( header & sn_flag ) == next_expected_sequence_number_ )
-            {
-                next_expected_sequence_number_ = !next_expected_sequence_number_;
-            }
+            // The PDU itself is not acknowledged: if it was resent by the central, it was already
+            // acknowledged when it was received the first time. If it is new, it was not stored and
+            // the central has to send it again.
         }
 
         return next_transmit();
